@@ -128,6 +128,9 @@ func (s *syncBuffer) Write(p []byte) (int, error) {
 	return s.b.Write(p)
 }
 
+// agentReadyWatchdog bounds the start-up handshake of a fake agent.
+const agentReadyWatchdog = 180 * time.Second
+
 func c35Watchdog() time.Duration {
 	if s := os.Getenv("VERIF_C35_WATCHDOG_S"); s != "" {
 		if n, err := strconv.Atoi(s); err == nil && n > 0 {
@@ -209,8 +212,10 @@ func runC35(c c35case) (obs c35obs, violation string, err error) {
 	var ready string
 	select {
 	case ready = <-readyCh:
-	case <-time.After(watchdog):
-		return obs, "", &infraError{"agent did not report ready within the watchdog"}
+	case <-time.After(agentReadyWatchdog):
+		// Start-up of the fake agent is harness business: its (generous, fixed) limit is
+		// independent of the Close watchdog.
+		return obs, "", &infraError{"agent did not report ready within " + agentReadyWatchdog.String()}
 	}
 	f := strings.Fields(ready)
 	if len(f) != 3 || f[0] != "ready" {
